@@ -88,6 +88,11 @@ func GenCase(r *vh.Rng, flavor string) Case {
 			c.FailMode = "close"
 		}
 	}
+	// application middlewares registered with conn.Use, behind the harness's observer
+	c.Middlewares = r.Intn(8)
+	if c.Middlewares > 0 {
+		c.MwHold = r.Intn(c.Middlewares)
+	}
 	n := 5 + r.Intn(18)
 	if r.Chance(30) {
 		c.Ops = append(c.Ops, Op{Op: "tickarm", N: 1 + r.Intn(3)})
@@ -114,7 +119,10 @@ func GenCase(r *vh.Rng, flavor string) Case {
 		live[id] = true
 	}
 	fieldQuery := map[string]int{"a": 0, "s": 1, "items": 2, "obj": 3, "flag": 7, "tick": 8}
-	stale, blocked := -1, -1
+	stale, blocked, slowmw := -1, -1, -1
+	if r.Chance(15) {
+		slowmw = r.Intn(n)
+	}
 	if r.Chance(15) {
 		stale = r.Intn(n)
 	}
@@ -145,6 +153,26 @@ func GenCase(r *vh.Rng, flavor string) Case {
 				c.Ops = append(c.Ops, Op{Op: "mutate", ID: id, Q: r.Intn(FirstBadMutQuery), Sync: "handled"})
 			}
 			c.Ops = append(c.Ops, Op{Op: "release", ID: id, Sync: "settle"})
+		}
+		if i == slowmw && c.Middlewares > 0 {
+			// a computation is held inside an application middleware while other requests with different
+			// queries (a mutation, another subscription) are set up and run on the same connection
+			id := IDPool[r.Intn(3)]
+			f := Fields[r.Intn(len(Fields))]
+			c.Ops = append(c.Ops, Op{Op: "unsubscribe", ID: id, Sync: "settle"},
+				Op{Op: "subscribe", ID: id, Q: fieldQuery[f], Sync: "settle"},
+				Op{Op: "mwhold", N: 1},
+				Op{Op: "set", Field: f, Int: int64(r.Intn(5)), Str: r.Pick(strVals), Sync: "none"},
+				Op{Op: "awaitblock"})
+			live[id] = true
+			for k := 1 + r.Intn(2); k > 0; k-- {
+				if r.Chance(65) {
+					c.Ops = append(c.Ops, Op{Op: "mutate", ID: IDPool[3+r.Intn(2)], Q: r.Intn(FirstBadMutQuery), Sync: "handled"}, Op{Op: "awaitrun"})
+				} else {
+					c.Ops = append(c.Ops, Op{Op: "subscribe", ID: IDPool[r.Intn(len(IDPool))], Q: r.Intn(FirstBadSubQuery), Sync: "handled"}, Op{Op: "awaitrun"})
+				}
+			}
+			c.Ops = append(c.Ops, Op{Op: "mwrelease", Sync: "settle"})
 		}
 		if i == blocked {
 			// an in-flight computation (resolver held until its context is cancelled) meets an unsubscribe,
